@@ -206,9 +206,11 @@ theorem ok_remove (idx : Nat) (dests : List Dest) (used : List Nat) (h : Ok idx 
 /-- `destid_stable`, insertion: the table stays consistent; every prefix already there keeps its
     id, and a new prefix gets an id no other prefix holds (by `ShardOk` of the result) -/
 theorem insert_ok (s : Shard) (h : ShardOk s) (hroom : s.used.length + 1 < 16777216)
-    (net : Net) (srcIdx : Nat) (src : Source) (rpid : Nat) (nh : Option Nh) (attrs : Attrs) (aid : Nat) :
-    ShardOk (s.insert net srcIdx src rpid nh attrs aid).1 ∧
-    (∀ d ∈ s.dests, ∃ d' ∈ (s.insert net srcIdx src rpid nh attrs aid).1.dests, d'.net = d.net ∧ d'.id = d.id) := by
+    (net : Net) (srcIdx : Nat) (src : Source) (rpid : Nat) (nh : Option Nh) (attrs : Attrs) (aid : Nat)
+    (filtered nhInvalid : Bool) :
+    ShardOk (s.insert net srcIdx src rpid nh attrs aid filtered nhInvalid).1 ∧
+    (∀ d ∈ s.dests, ∃ d' ∈ (s.insert net srcIdx src rpid nh attrs aid filtered nhInvalid).1.dests,
+       d'.net = d.net ∧ d'.id = d.id) := by
   simp only [Shard.insert, ShardOk]
   cases hf : s.dests.find? (·.net = net) with
   | some d =>
@@ -239,12 +241,14 @@ theorem insert_ok (s : Shard) (h : ShardOk s) (hroom : s.used.length + 1 < 16777
       exact ⟨x, List.mem_append_left _ hx, rfl, rfl⟩
 
 /-- `destid_stable`, withdrawal: the table stays consistent; other prefixes are untouched; the prefix
-    itself keeps its id, or the emitted change carries its id and no paths (the id is released) -/
+    itself keeps its id, or (the id is released and) the emitted change carries its id and no paths;
+    no change is emitted when the last path, the one withdrawn, was hidden by the import policy -/
 theorem remove_ok (s : Shard) (h : ShardOk s) (net : Net) (src : Source) (rpid : Nat) :
     ShardOk (s.remove net src rpid).1 ∧
     (∀ d ∈ s.dests, d.net ≠ net → d ∈ (s.remove net src rpid).1.dests) ∧
     (∀ d ∈ s.dests, d.net = net →
        (∃ d' ∈ (s.remove net src rpid).1.dests, d'.net = net ∧ d'.id = d.id) ∨
+       (s.remove net src rpid).2 = none ∨
        (∃ ch, (s.remove net src rpid).2 = some ch ∧ ch.net = net ∧ ch.destId = d.id ∧ ch.paths = [])) := by
   simp only [Shard.remove, ShardOk]
   cases hf : s.dests.find? (·.net = net) with
@@ -270,7 +274,9 @@ theorem remove_ok (s : Shard) (h : ShardOk s) (net : Net) (src : Source) (rpid :
           right
           have := huniq x hx hxn
           subst this
-          exact ⟨_, rfl, rfl, rfl, rfl⟩
+          split
+          · exact Or.inr ⟨_, rfl, rfl, rfl, rfl⟩
+          · exact Or.inl rfl
       · refine ⟨ok_replace s.idx s.dests s.used h d _ hdm rfl rfl, ?_, ?_⟩
         · intro x hx hxn
           exact (mem_replaceNet _ _ _ _).mpr (Or.inl ⟨hx, hxn⟩)
